@@ -22,7 +22,7 @@ def newcur_cases():
         k[0] += 1
         c = dict(op='newcur', sym=sym, symok=symok,
                  minor=dict(given=minor is not None, int=False, v=0, obj=V('int', 0)),
-                 sf=dict(given=sf is not None, num=False, q=qj(0), divides1=False, digits=0, obj=V('int', 0)))
+                 sf=dict(given=sf is not None, num=False, q=qj(0), divides1=False, digits=0, terminates=True, obj=V('int', 0)))
         if minor is not None:
             kind, val = minor
             c['minor'].update(int=(kind == 'int'), v=int(val) if kind == 'int' else 0,
@@ -37,6 +37,7 @@ def newcur_cases():
                 while (f * 10 ** digits).denominator != 1 and digits < 30:
                     digits += 1
                 c['sf'].update(num=True, q=qj(f), divides1=(f > 0 and (1 / f).denominator == 1 and f < 1), digits=digits,
+                               terminates=(f * 10 ** digits).denominator == 1,
                                obj=V(kind, f) if kind != 'str' else V('str', text=str(val)))
         cs.append(c)
     n = [0]
@@ -54,6 +55,9 @@ def newcur_cases():
     case(sym(), ('int', 2), ('dec', '0.01'))
     case(sym(), ('int', 3), ('dec', '0.005'))
     case(sym(), ('int', 2), ('dec', '0.05'))
+    # smallest fractions that are no decimal fractions: accepted or rejected, but never half-registered
+    for fr in (F(1, 3), F(1, 240), F(1, 6), F(1, 7)):
+        case(sym(), None, ('frac', fr))
     # invalid parameters -> rejected, no trace
     case(sym(), ('int', -1), None)
     case(sym(), ('frac', F(3, 2)), None)
@@ -88,6 +92,15 @@ def construct_cases(quick):
                     if how == 'dec' and F(a).denominator == 1:
                         c['amtv'] = V('int', f)
                     cs.append(c)
+    # number * currency / currency * number: the float's exact binary value counts, under every mode
+    for sf in ('0.01', '0.001', '0.05'):
+        for a in ('2.675', '0.29', '0.07', '1.0005', '0.125', '-2.675', '1.005', '0.015'):
+            for how in ('unitmul', 'unitrmul'):
+                for mode in ('ROUND_HALF_EVEN', 'ROUND_HALF_UP', 'ROUND_DOWN', 'ROUND_UP', 'ROUND_FLOOR', 'ROUND_CEILING'):
+                    for kind in ('float', 'dec'):
+                        f = F(float(F(a))) if kind == 'float' else F(a)
+                        cs.append(dict(op='construct', how=how, text=a, sfv=V('dec', sf), sf=qj(F(sf)), mode=mode, amt=qj(f),
+                                       amtv=dict(kind='float', n=f.numerator, d=f.denominator) if kind == 'float' else V('dec', f)))
     return cs
 
 
@@ -148,7 +161,7 @@ def run(ctx):
     # a converter was active in a with-block that has since been left (normally or by an exception): "no converter
     # active" again.  These run last within their process (a leaked converter would colour everything after it).
     for (c1, c2) in (('EUR', 'USD'), ('JPY', 'KWD'), ('USD', 'USD')):
-        for pre in ('block', 'block_exc'):
+        for pre in ('block', 'block_exc', 'nested'):
             for f in OPS:
                 k += 1
                 cs.append(dict(op='mix', f=f, c1=c1, c2=c2, a=[7, 1], b=[3, 1], k=k, pre=pre))
